@@ -572,7 +572,7 @@ func (r *replayer) run(v *interp.Violation, vecPath string) string {
 	if err != nil {
 		return err.Error()
 	}
-	cmd := exec.Command("/bin/sh", "-c", "ulimit -v 8388608; exec timeout 120 "+bin+" -test.run '^TestVerifReplay$' -test.count=1")
+	cmd := exec.Command("/bin/sh", "-c", "ulimit -v 8388608; exec timeout 30 "+bin+" -test.run '^TestVerifReplay$' -test.count=1")
 	cmd.Dir = filepath.Dir(bin)
 	cmd.Env = append(os.Environ(), "VERIF_REPLAY="+vecPath, "VERIF_ENTRY="+v.Entry)
 	out, err := cmd.CombinedOutput()
